@@ -24,6 +24,7 @@ EXPECT = {
  ('f8e960c', 1): [('DIVISOR-POSITIVE', 'C23', 'DIVISOR-POSITIVE/api/functions.divide#1')],
  ('6ba81dd', 1): [('GEOJSON-TYPES', 'C32', 'GEOJSON-TYPES/geojson#MultiLineString')],
  ('b559a96', 1): [('ESCAPE-LEX', 'C20', 'ESCAPE-LEX/api.EscapeTagValue#8')],
+ ('3e4a8a0', 1): [('DECODE-ADVANCES', 'C08', 'DECODE-ADVANCES/ingest/compact.(*Iterator).Advance#1')],
  ('d834352', 1): [('YAML-NATIVE', 'C18', 'YAML-NATIVE/b6.(Expression).MarshalYAML#StringExpression')],
  ('0b184d3', 1): None,  # covered by mutants/RESTORE.json
  ('0b184d3', 2): None,
